@@ -33,10 +33,27 @@ def snapshot(ms):
             [id(c.member_points) for c in ms.clusters], [c.computed_covariance.tobytes() for c in ms.clusters])
 
 
-def run_impl(K, m, labels, spreads, seed):
+def second_round_state(K, m, labels1, spreads1, labels2, spreads2, seed):
+    """a model state as the main loop would hold it in a later round: repopulated once, MRFs / covariances replaced by the
+    optimise step (fresh spread ranking), relabelled"""
+    from fast_ticc import cluster_maintenance as cm, graphical_lasso as gl
+    ms = make_state(K, m, labels1, spreads1)
+    random.seed(seed)
+    try:
+        ms = cm.repopulate_empty_clusters(ms)
+    except RuntimeError:
+        pass
+    nxt = ms.shallow_copy()
+    nxt.clusters = [gl._update_cluster_covariances(ms, c, np.array([1.0 / (1.0 + spreads2[k])])) for k, c in enumerate(ms.clusters)]
+    nxt.point_labels = list(labels2)
+    return nxt
+
+
+def run_impl(K, m, labels, spreads, seed, ms=None):
     """returns dict(out=labels|None, error=str|None, draws, order, frame_ok)"""
     from fast_ticc import cluster_maintenance as cm
-    ms = make_state(K, m, labels, spreads)
+    if ms is None:
+        ms = make_state(K, m, labels, spreads)
     before = snapshot(ms)
     draws = []
     moves = []
@@ -164,6 +181,26 @@ def gen(ctx, rng):
                 pat = idx % 3
                 spreads = [pyr.randint(0, 3) for _ in range(K)] if pat == 0 else (list(range(K)) if pat == 1 else list(range(K, 0, -1)))
                 cases.append((K, m, labels, spreads, "exhaustive"))
+    for _ in range(ctx.budget(300, 2500)):
+        # repeated application inside one run: the state of a later round (after a repopulation and an optimise step
+        # that changed the spread ranking)
+        K = pyr.randint(2, 6)
+        m = pyr.randint(1, 3)
+        def lab():
+            sizes = [pyr.choice([0, 1, 2 * m, 2 * m + 1, 3 * m, 3 * m + 1, 4 * m, 6 * m]) for _ in range(K)]
+            if sum(sizes) == 0:
+                sizes[0] = 2 * m
+            l = []
+            for k, sz in enumerate(sizes):
+                l += [k] * sz
+            pyr.shuffle(l)
+            return l
+        l1 = lab()
+        l2 = lab()
+        n = max(len(l1), len(l2))
+        l1 = (l1 + [l1[0]] * n)[:n]
+        l2 = (l2 + [l2[0]] * n)[:n]
+        cases.append((K, m, l2, [pyr.randint(0, 4) for _ in range(K)], ("two-round", l1, [pyr.randint(0, 4) for _ in range(K)])))
     for _ in range(ctx.budget(400, 4000)):
         K = pyr.randint(6, 12)
         m = pyr.randint(1, 4)
@@ -201,7 +238,12 @@ def run(ctx):
             case = {"K": K, "m": m, "labels": labels, "spreads": spreads}
             r = None
             with ctx.guard("repopulate_empty_clusters", case):
-                r = run_impl(K, m, labels, spreads, seed=ctx.seed * 1000003 + i)
+                if isinstance(stream, tuple):
+                    ms2 = second_round_state(K, m, stream[1], stream[2], labels, spreads, seed=i)
+                    r = run_impl(K, m, labels, spreads, seed=ctx.seed * 1000003 + i, ms=ms2)
+                    stream = "two-round"
+                else:
+                    r = run_impl(K, m, labels, spreads, seed=ctx.seed * 1000003 + i)
             ctx.count(stream)
             if r is None:
                 continue
